@@ -178,6 +178,22 @@ def check_rel_interval(spec, ctx):
             ctx.fail("rel_interval_invalid_accepted", [a, b, n])
         except REJECT:
             pass
+    # fixed-size windows along the location are documented as these very sub-intervals: window j of scan_windows(size, step, start)
+    # holds the bases pos[start + j*step : start + j*step + size], 5'->3' (without self-overlap the order is always representable)
+    if n >= 1 and not overlap and strand != ".":
+        for size, step, start in spec.get("windows") or [(1, 1, 0), (2, 1, 0), (3, 2, 1), (5, 3, 0), (n, 1, 0)]:
+            if not (1 <= size <= n and step >= 1 and 0 <= start and start + size <= n):
+                continue
+            try:
+                wins = list(loc.scan_windows(size, step, start))
+            except REJECT as e:
+                ctx.fail("scan_windows_refused_valid_arguments", {"args": [size, step, start], "exc": repr(e)[:80]})
+                continue
+            want = [pos[i:i + size] for i in range(start, n - size + 1, step)]
+            ctx.eq("scan_windows_images", [rm.loc_positions(w) for w in wins], want, extra=[size, step, start])
+            ctx.true("scan_windows_strand", all(rm.loc_strand(w) == strand for w in wins), [rm.loc_strand(w) for w in wins])
+            if any(len(rm.blocks_of_set(set(w_))) >= 3 for w_ in want):
+                ctx.label("window_spans_three_blocks")
 
 
 # ------------------------------------------------------------------------------------ parent location -> relative
